@@ -54,7 +54,7 @@ def enc_segs(segs):
 class Exchange:
     """Canonical record of one response read by the real code (or by the model)."""
     __slots__ = ('outcome', 'status', 'fields', 'body', 'exc', 'consumed', 'closed', 'notified',
-                 'calls', 'declog', 'at_eof')
+                 'calls', 'declog', 'at_eof', 'fileinfo')
 
     def key(self):
         return (self.outcome, self.status, tuple(self.fields or ()), self.body, self.exc)
@@ -746,9 +746,20 @@ def real_session_sequence(exchanges, recorder_params=None, keep_alive=True, igno
                     if e.get('req_body') is not None:
                         request.body = io.BytesIO(e['req_body'])
                         request.fields['Content-Length'] = str(len(e['req_body']))
-                    out = io.BytesIO()
+                    # the body file: fresh; or one that already holds a prefix and is positioned at its
+                    # end (-O / --save-headers / --continue); or one object shared by all exchanges
+                    fmode = e.get('file', 'fresh')
+                    if fmode == 'shared':
+                        out = cur.setdefault('shared_file', io.BytesIO())
+                        out.seek(0, 2)
+                    else:
+                        out = io.BytesIO()
+                        if fmode == 'prefix':
+                            out.write(e.get('file_prefix', b'PREFIX'))
+                    file_before = (out.getvalue(), out.tell())
                     x = Exchange()
                     x.status = x.fields = x.body = x.exc = None
+                    x.fileinfo = None
                     del calls[:]
                     notified = []
                     declog = cur['declog'] = []
@@ -788,7 +799,14 @@ def real_session_sequence(exchanges, recorder_params=None, keep_alive=True, igno
                             x.outcome = 'ok'
                             x.status = (response.version, response.status_code, response.reason)
                             x.fields = [(n, v) for n, v in response.fields.get_all()]
-                            x.body = out.getvalue()
+                            if e.get('leave', 'full') == 'full':
+                                # what callers get: the document is read from the file position the
+                                # download leaves (Body.content()), not from a private buffer
+                                x.body = response.body.content()
+                                x.fileinfo = {'before': file_before[0], 'offset': file_before[1], 'pos_after': out.tell(),
+                                              'data_after': out.getvalue()}
+                            else:
+                                x.body = out.getvalue()[file_before[1]:]
                         except Exception as exc:
                             x.outcome = 'exc'
                             x.exc = classify_exc(exc)
